@@ -437,6 +437,7 @@ def run(tier, pid="C06"):
     rep.tlc_runs += subrep.tlc_runs
     rep.violations += subrep.violations
     rep.known += subrep.known
+    rep.extra["driver_cpu_s"] = round(time.process_time(), 1)
     rep.exhaustive = False
     rep.extra["explanation"] = (
         "exhaustive over the expression/value spaces of the mt_mc*.cfg configs (bounds in spec/match/*.cfg and "
